@@ -198,6 +198,75 @@ def scenario(sseed, kind, res, lines, expect, soft=None):
     return tags
 
 
+def _pval(v):
+    """canonical tree of a `Value` message (oneof)"""
+    k = v.WhichOneof("kind")
+    return {{"int_value": "int", "float_value": "float", "string_value": "str", "boolean_value": "bool"}[k]: getattr(v, k)}
+
+
+def proto_tree(p):
+    """canonical tree of a hyperparameter message, field by field (Ktm/Proto.lean `hpP`)"""
+    from keras_tuner import protos
+    pb = protos.get_proto()
+    conds = [{"name": c.parent.name, "values": [_pval(v) for v in c.parent.values]} for c in p.conditions]
+    base = {"name": p.name, "conditions": conds}
+    samp = lambda e: pb.Sampling.Name(e)
+    if isinstance(p, pb.Int):
+        return dict(base, kind="Int", min_value=int(p.min_value), max_value=int(p.max_value), step=int(p.step), sampling=samp(p.sampling), default=int(p.default))
+    if isinstance(p, pb.Float):
+        return dict(base, kind="Float", min_value=float(p.min_value), max_value=float(p.max_value), step=float(p.step), sampling=samp(p.sampling), default=float(p.default))
+    if isinstance(p, pb.Choice):
+        return dict(base, kind="Choice", values=[_pval(v) for v in p.values], ordered=bool(p.ordered), default=_pval(p.default))
+    if isinstance(p, pb.Boolean):
+        return dict(base, kind="Boolean", default=bool(p.default))
+    return dict(base, kind="Fixed", value=_pval(p.value))
+
+
+def proto_cases(R, lines, expect, tags):
+    """every entry of a random space: config -> model `to_proto` vs the real message; real message -> model `from_proto` vs the
+    config of the decoded entry (floats as exact tokens; Float fields are doubles on the wire: an integer step or default of a
+    Float is compared as the double it becomes; Boolean-valued choices travel as integers and are left out)"""
+    from harness.suite_codec import canon, through_json, wire
+    import contextlib, io
+    specs = gen.rand_specs(R, finite=R.random() < 0.5, samename=R.random() < 0.3, maxdepth=3)
+    for s_ in specs:
+        if s_["kind"] in ("int", "float") and R.random() < 0.3:
+            s_["default"] = R.choice([s_["lo"], s_["hi"], 0 if s_["lo"] <= 0 <= s_["hi"] else s_["lo"]])
+    for s_ in specs:
+        hp = gen.build_hp(s_)
+        if s_["kind"] == "choice" and isinstance(s_["values"][0], bool):
+            tags["proto-bool-choice-skipped"] += 1
+            continue
+        with contextlib.redirect_stdout(io.StringIO()):
+            msg = hp.to_proto()
+            back = type(hp).from_proto(type(msg).FromString(msg.SerializeToString()))     # through real protobuf bytes
+        cfg = through_json({"class_name": type(hp).__name__, "config": hp.get_config()})
+        cfg2 = through_json({"class_name": type(back).__name__, "config": back.get_config()})
+        if s_["kind"] == "float":
+            for c_ in (cfg, cfg2):
+                for f in ("step", "default", "min_value", "max_value"):
+                    if isinstance(c_["config"].get(f), int) and not isinstance(c_["config"].get(f), bool):
+                        c_["config"][f] = float(c_["config"][f])
+        tree = proto_tree(msg)
+        lines.append(dict(suite="codec", op="p_hp", tree=wire(cfg)))
+        expect.append(canon(tree))
+        lines.append(dict(suite="codec", op="p_hp_from", tree=wire(tree)))
+        expect.append(canon(cfg2))
+        tags["proto-entries"] += 1
+    # a values message
+    kt = impl()
+    vals = {f"v{i}": R.choice([True, False, 3, -2, 0, 0.5, 2.0, "a", ""]) for i in range(R.randint(0, 5))}
+    h = kt.HyperParameters()
+    h.values = dict(vals)
+    with contextlib.redirect_stdout(io.StringIO()):
+        m = h.to_proto()
+        m = type(m).FromString(m.SerializeToString())
+    tree = {k: _pval(v) for k, v in m.values.values.items()}
+    lines.append(dict(suite="codec", op="p_values", tree=wire(tree)))
+    expect.append(canon({k: ({"bool": v} if isinstance(v, bool) else {"int": v} if isinstance(v, int) else {"float": v} if isinstance(v, float) else {"str": v}) for k, v in vals.items()}))
+    tags["proto-values"] += 1
+
+
 def run(seed, tier, n=None, kinds=("random", "grid", "hyperband", "random", "bayes")):
     res = Result("rpc")
     res.rule = ("random conditional spaces (all kinds, bool / int / float / str values) and request sequences of 1-3 workers with hyperparameters "
@@ -232,6 +301,18 @@ def run(seed, tier, n=None, kinds=("random", "grid", "hyperband", "random", "bay
             res.nontrivial.add(hashlib.sha1(str(sseed).encode()).hexdigest())
         if len(res.samples) < 2 and lines:
             res.samples.append({"scenario": {"seed": sseed, "kind": kind}, "decoder_input": lines[0]["order"][:8], "decoded_order": expect[0]})
+    # message-level codec: to_proto / from_proto of entries and values against Ktm/Proto.lean
+    for i in range(max(4, n // 2)):
+        pseed = R.randrange(1 << 30)
+        lines, expect, ptags = [], [], collections.Counter()
+        try:
+            proto_cases(random.Random(pseed), lines, expect, ptags)
+        except Violation as v:
+            res.violations.append({"pid": v.pid, "what": v.what, "sig": v.sig, "replay": {"suite": "rpc", "seed": pseed, "kind": "proto"}})
+            continue
+        res.hist.update(ptags)
+        spans.append((len(all_lines), lines, expect, {"suite": "rpc", "seed": pseed, "kind": "proto"}))
+        all_lines += lines
     try:
         out = run_driver(all_lines) if all_lines else []
     except Exception as e:
@@ -245,6 +326,11 @@ def run(seed, tier, n=None, kinds=("random", "grid", "hyperband", "random", "bay
 def replay(doc):
     res = Result("rpc")
     lines, expect = [], []
+    if doc.get("kind") == "proto":
+        proto_cases(random.Random(doc["seed"]), lines, expect, collections.Counter())
+        out = run_driver(lines) if lines else []
+        compare(res, lines, expect, out, doc)
+        return res
     try:
         scenario(doc["seed"], doc["kind"], res, lines, expect)
     except Violation as v:
